@@ -193,6 +193,15 @@ def isDenied (env : Env) (obj : Nat) (name : Text) : Bool := env.denied.any (fun
 
 def unauthorized (name : Text) : Exc := ⟨"Unauthorized".toList, name⟩
 
+/-- `roman.toRoman n` (1 ≤ n < 5000): greedy over the numeral table -/
+def romanTable : List (Nat × Text) :=
+  [(1000, ['M']), (900, ['C', 'M']), (500, ['D']), (400, ['C', 'D']), (100, ['C']), (90, ['X', 'C']),
+   (50, ['L']), (40, ['X', 'L']), (10, ['X']), (9, ['I', 'X']), (5, ['V']), (4, ['I', 'V']), (1, ['I'])]
+
+def toRoman (n : Nat) : Text :=
+  (romanTable.foldl (fun (acc : Text × Nat) (e : Nat × Text) =>
+    (acc.1 ++ (List.replicate (acc.2 / e.1) e.2).flatten, acc.2 % e.1)) ([], n)).1
+
 def letterOf (base : Nat) (i : Nat) : Text := [Char.ofNat (base + i)]
 
 /-- the documented per-item variables of sequence_variables, for item `i` -/
@@ -222,6 +231,8 @@ def seqFixed (sv : SeqVars) (suffix : Text) : Option Val :=
   else if suffix = "number".toList then some (.int (i + 1))
   else if suffix = "letter".toList then some (.str (letterOf 97 i))
   else if suffix = "Letter".toList then some (.str (letterOf 65 i))
+  else if suffix = "Roman".toList then (if i + 1 < 5000 then some (.str (toRoman (i + 1))) else none)
+  else if suffix = "roman".toList then (if i + 1 < 5000 then some (.str ((toRoman (i + 1)).map Char.toLower)) else none)
   else if suffix = "even".toList then some (.bool (i % 2 == 0))
   else if suffix = "odd".toList then some (.int (i % 2))
   else if suffix = "start".toList then some (.int (if sv.started then 1 else 0))
